@@ -23,6 +23,7 @@
 #include <cmath>
 #include <cstddef>
 #include <limits>
+#include <random>
 #include <type_traits>
 
 namespace hep
@@ -30,24 +31,44 @@ namespace hep
 
 /// \cond INTERNAL
 
+// generator with the range of `R` that only counts how often it is invoked
+template <typename R>
+struct random_number_usage_counter
+{
+    using result_type = typename R::result_type;
+
+    static constexpr result_type min()
+    {
+        return R::min();
+    }
+
+    static constexpr result_type max()
+    {
+        return R::max();
+    }
+
+    result_type operator()()
+    {
+        ++count;
+        return R::min();
+    }
+
+    std::size_t count = 0;
+};
+
 template <typename T, typename R>
 inline std::size_t random_number_usage()
 {
-    using S = typename std::remove_reference<R>::type;
+    using S = typename std::remove_cv<typename std::remove_reference<R>::type>::type;
 
-    // the number of random bits
-    std::size_t const b = std::numeric_limits<T>::digits;
+    // Count the invocations the standard library needs for a single number instead of evaluating
+    // the formula `max(1, ceil(b / log2(r)))` ourselves: implementations evaluate the logarithm in
+    // floating point, which for ranges `r` that are a power of two whose exponent is not exactly
+    // reproduced takes one more invocation than the formula says
+    random_number_usage_counter<S> counter;
+    std::generate_canonical<T, std::numeric_limits<T>::digits>(counter);
 
-    // the number of different numbers the generator can generate
-    long double const r = static_cast <long double> (S::max())
-        - static_cast <long double> (S::min()) + 1.0L;
-
-    // the number of bits needed to hold the value of 'r'
-    std::size_t const log2r = std::log2(r);
-
-    std::size_t const k = std::max<std::size_t>(1, (b + log2r - 1UL) / log2r);
-
-    return k;
+    return counter.count;
 }
 
 inline std::size_t discard_before(std::size_t total_calls, std::size_t rank, std::size_t world)
